@@ -199,6 +199,11 @@ func c18History(t *testing.T, res *common.Result, rng *common.Rng, idx int, extr
 	names := []string{}
 	for i := 0; i < 3+rng.Intn(2); i++ {
 		n := randName(rng, string(rune('a'+i)))
+		if i == 1 {
+			// a name with characters a formatter might escape or a parser might trip over: what the tool lists
+			// must be the name itself, and feeding it back to `unlock` must work
+			n += ` C:\dir "q" é#1`
+		}
 		names = append(names, n)
 		k.sizes[n] = int32(1 + rng.Intn(2))
 	}
